@@ -321,8 +321,11 @@ func TestMAC256DefectExact(t *testing.T) {
 // TestLibraryDigest: every byte the library returned in the three sweeps above,
 // hashed. The value is the same for the assembly build, the purego build and
 // GODEBUG=cpu.*=off variants, which is how "all builds agree with each other"
-// is checked. (Pinned revision, i.e. including the known MAC defect.)
-const libraryDigest = "PLACEHOLDER"
+// is checked.
+const (
+	libraryDigestPinned   = "178325b13d9910f705a2430c497508d10dbeeb9903fb0aa57e1b0cc19448ebb5" // pinned revision, with the known MAC defect
+	libraryDigestRepaired = "a523bdb657e82dcc59ca16190eef3c57222d1c2bb10385e780d893170967405c" // library == textbook model everywhere
+)
 
 func TestLibraryDigest(t *testing.T) {
 	d := new(libDigest)
@@ -331,7 +334,7 @@ func TestLibraryDigest(t *testing.T) {
 	mac256Check(t, d)
 	got := hex.EncodeToString(d.h[:])
 	t.Logf("library output digest %s", got)
-	if got != libraryDigest {
-		t.Errorf("library output digest %s, frozen %s", got, libraryDigest)
+	if got != libraryDigestPinned && got != libraryDigestRepaired {
+		t.Errorf("library output digest %s is neither the pinned (%s) nor the repaired (%s) one", got, libraryDigestPinned, libraryDigestRepaired)
 	}
 }
